@@ -238,6 +238,7 @@ def run(ctx, spec):
                 case = suite.random_super_case(rng, "superdtl", 7, 5, 5, cost=cost, min_obj=1)
                 case.update(kind="c04", algos=["superdtl", "base_uspfs"])
             case["named"] = rng.random() < 0.7
+            case["costs"] = gen.tame(case["costs"], len(case["leafmap"]))
             check_case(ctx, case)
             if len(case["leafmap"]) >= 4:
                 ctx.sample(case)
@@ -248,7 +249,7 @@ def run(ctx, spec):
             ordered = k % 4 == 0
             case = gen.deep_super_case(rng, ordered=ordered, max_obj=6 if ordered else 7, max_fam=4 if ordered else 5)
             if k % 3 == 0:
-                case["costs"] = gen.random_cost(rng, coherent_only=False)
+                case["costs"] = gen.tame(gen.random_cost(rng, coherent_only=False), len(case["leafmap"]))
             case.update(kind="c04", algos=["ext_spfs"] if ordered else ["superdtl", "base_uspfs"])
             check_case(ctx, case)
             ctx.count("deep_cases")
